@@ -3,3 +3,6 @@ import Driver.RowPipe
 import Driver.Anim
 import Driver.Opts
 import Driver.VP8L
+import Driver.LTransform
+import Driver.Alpha
+import Driver.Import
